@@ -10,7 +10,11 @@ What a run does
  3. audits the Lean sources of the Java side (no sorry/axiom/native_decide/…) and `#print axioms` of every theorem;
  4. translator tie: the Float reading of `JGen.f (JTables.ofC T)` — T = the raw tables of the working tree's prdata phase — is run
     on protocol lines and compared with the REAL Java method (harness/java/XrlDrv.java, reflection) line by line;
- 5. data-path check: the derivation code duplicated in java/pr_data_java.c is compared with src/pr_data.c, and the order of
+ 5. data hypotheses: every hypothesis about the tables that a theorem asks for (counts are ints, vector lengths, `KAllOk`, `LGaps`,
+    `UOCCUP >= 0`, `AtomicWeight >= 0`, …) is a Bool function of lean/Xrl/JCore/HypCheck.lean (proved to imply the hypothesis in
+    Xrl/Props/C19f.lean) and is RUN on the loaded tables for every element, in every data configuration of the check (shipped, raw
+    prdata phase, regenerated Kissel; synthetic Kissel in the thorough tier); `JTame` depends on the energy and is run point by point;
+ 6. data-path check: the derivation code duplicated in java/pr_data_java.c is compared with src/pr_data.c, and the order of
     the writes of pr_data_java.c with the order of the reads of XRayInit.
 Messages go to rep['proof_broken'] / rep['tie_broken'] / rep['problems'], counts to ctx.coverage['java_*'].
 """
@@ -25,7 +29,7 @@ import xapi
 
 LEAN_DIR = os.environ.get('C19M_LEAN_DIR', core.LEAN_DIR)          # development only: a private copy of lean/
 JGEN_DIR = os.path.join(LEAN_DIR, 'Xrl', 'JGen')
-PROP_MODULES = ['Xrl.Props.C19', 'Xrl.Props.C19b', 'Xrl.Props.C19c', 'Xrl.Props.C19d', 'Xrl.Props.C19e']          # all in namespace Xrl.C19; each imports the previous one
+PROP_MODULES = ['Xrl.Props.C19', 'Xrl.Props.C19b', 'Xrl.Props.C19c', 'Xrl.Props.C19d', 'Xrl.Props.C19e', 'Xrl.Props.C19f']          # all in namespace Xrl.C19; each imports the previous one
 PROP_FILES = [os.path.join(LEAN_DIR, *m.split('.')) + '.lean' for m in PROP_MODULES]
 PROPS = PROP_MODULES[-1]
 NS = 'Xrl.C19'
@@ -194,6 +198,89 @@ def tie_lines(ctx, b, meta):
             lines += ['%s %d %s E' % (f, Z, xapi.hx(E)) for Z in (-1, 0, 1, 3, 11, 26, 56, 82, 92, 120, 121) for E in (0.0, -1.0, 0.05, 1.0, 7.2, 40.0, 120.0)]
     return lines, fns
 
+# ------------------------------------------------------------------------------------------ data hypotheses of the theorems, executed
+
+HYP_CHECKS = {      # op of JDriver.lean -> (hypotheses it implies by Xrl.C19.hyp_<op>_sound, theorems that ask for them)
+    'counts': 'hN.. (counts are ints), hEq NE_Fii = NE_Fi (Fi), h92 no CS_Energy data for Z > 92 (CS_Energy)',
+    'kall':   'KAllOk / KVecOk (Kissel vectors of the occupied sub-shells as long as their counts, Q shells empty), hq of CS(b)_Photo_Partial',
+    'lgaps':  'LGaps (no gap in the chain L1, L2, L3 of edges): Jump_from_L2/L3, CS(b)_FluorLine/FluorShell, LineEnergy(LB_LINE)',
+    'uoccup': 'hlenU, hU (where there are profiles: as many occupation numbers as shells, none negative): ComptonProfile_Partial',
+    'aw':     'conclusion of haw (AtomicWeight_arr[Z] > 0): the closed forms CS_*/CSb_*/DCS_*/DCSP_* (W2)',
+}
+KISSEL_FAMILY = re.compile(r'^CSb?_Fluor(Line|Shell)_Kissel')
+
+def hyp_configs(ctx):
+    """(name, dump prefix) of the data configurations of this run"""
+    out = [('shipped', 'dump'), ('shipped-raw-prdata', 'pdump')]
+    suf = ctx.build_kissel_config('real'); out.append(('kissel-regenerated', 'dump' + suf))
+    if ctx.tier == 'thorough' or os.environ.get('C19M_KISSEL'):
+        suf = ctx.build_kissel_config('synth'); out.append(('kissel-synthetic', 'dump' + suf))
+    return out
+
+def jtame_points(ctx, lines):
+    """(Z, E) at which `JTame (CS_Photo_Partial Z k E)`, k = 0..8, is executed: the arguments of the Kissel-family calls of the tie and a grid"""
+    pts = set()
+    for l in lines:
+        t = l.split(' ')
+        if KISSEL_FAMILY.match(t[0]) and len(t) >= 5:
+            try: Z = int(t[1])
+            except ValueError: continue
+            if 1 <= Z <= 120 and t[3].startswith('x'): pts.add((Z, t[3]))
+    if ctx.tier == 'quick' and len(pts) > 1500: pts = set(ctx.rng.sample(sorted(pts), 1500))
+    for Z in range(1, 121):
+        for E in (0.0012, 0.11, 1.0, 3.3, 9.9, 25.0, 81.0, 200.0, 799.0): pts.add((Z, xapi.hx(E)))
+    return sorted(pts)
+
+def _ranges(zs):
+    zs = sorted(zs); out = []; i = 0
+    while i < len(zs):
+        j = i
+        while j + 1 < len(zs) and zs[j + 1] == zs[j] + 1: j += 1
+        out.append(str(zs[i]) if i == j else '%d-%d' % (zs[i], zs[j])); i = j + 1
+    return ','.join(out)
+
+def hyp_step(ctx, rep, cov, lines):
+    """Runs every data hypothesis on every element of every configuration.  A hypothesis delimits the elements a theorem speaks about, it is not
+    part of the property: where it fails the theorem is silent and the element is covered by the differential run alone — that is recorded
+    (coverage `java_hypotheses_executed`), not reported as a problem.  A hypothesis that holds for NO element is a problem: the theorems that
+    ask for it would say nothing about the tables."""
+    res = {}
+    tl = ['hyp.%s %d E' % (c, Z) for c in HYP_CHECKS for Z in range(1, 121)] + ['hyp.counts 0 E', 'hyp.counts 121 E']
+    pts = jtame_points(ctx, lines)
+    jl0 = ['CS_Photo_Partial %d %d %s E' % (Z, k, E) for Z, E in pts for k in range(9)]
+    for name, dump in hyp_configs(ctx):
+        jl = [] if name == 'shipped-raw-prdata' else jl0        # the same data as `shipped` before rounding to 11 digits: table checks only
+        ans = run_model(ctx, tl + jl, dump)
+        d = dict(elements='Z = 1..120 (counts also for the rows 0 and 121)', checks={})
+        fails = {}
+        for l, a in zip(tl, ans[:len(tl)]):
+            c = l.split(' ')[0][4:]; Z = int(l.split(' ')[1])
+            e = d['checks'].setdefault(c, dict(run=0, hold=0)); e['run'] += 1
+            if a.strip() == 'hyp 1': e['hold'] += 1
+            elif a.strip() == 'hyp 0': fails.setdefault(c, []).append(Z)
+            else: rep['problems'].append('data hypothesis `%s` could not be executed (%s): %s' % (l, name, a[:80]))
+        for c, e in d['checks'].items():
+            e['fails_for_Z'] = _ranges(fails.get(c, []))
+            if e['hold'] == 0:
+                rep['problems'].append('the data hypothesis `%s` (%s) holds for no element of the %s tables: the theorems that ask for it say nothing about them' % (c, HYP_CHECKS[c], name))
+        jt = dict(points=len(pts) if jl else 0, calls=len(jl), value=0, iae=0, not_tame=0, not_tame_examples=[])
+        for l, a in zip(jl, ans[len(tl):]):
+            if a.startswith('ok '): jt['value'] += 1
+            elif a.startswith('throw IllegalArgumentException'): jt['iae'] += 1
+            else:
+                jt['not_tame'] += 1
+                if len(jt['not_tame_examples']) < 8: jt['not_tame_examples'].append('%s -> %s' % (l, a[:60]))
+        if jl and jt['value'] + jt['iae'] == 0: rep['problems'].append('`JTame` holds at none of the %d points executed on the %s tables' % (len(jl), name))
+        d['jtame'] = jt
+        res[name] = d
+        log('C19 model hypotheses on %s (elements where each holds / fails): %s; JTame at %d points x 9 shells: %d values, %d IllegalArgument, %d not tame' % (
+            name, ', '.join('%s %d/%d%s' % (c, e['hold'], e['run'], (' (not Z=%s)' % e['fails_for_Z']) if e['fails_for_Z'] else '') for c, e in d['checks'].items()),
+            jt['points'], jt['value'], jt['iae'], jt['not_tame']))
+    cov['java_hypotheses_executed'] = dict(what=HYP_CHECKS, soundness='Xrl.C19.hyp_{counts,kvec,kall,lgaps,uoccup,aw}_sound (lean/Xrl/Props/C19f.lean): check = true implies the hypothesis as the theorems state it',
+                                           jtame='JTame (JGen.CS_Photo_Partial (JTables.ofC T) Z k E), k = 0..8, evaluated in the Float reading at the (Z, E) of the Kissel-family calls of the tie and a grid of 120 x 9',
+                                           reading='where a hypothesis fails the theorems that ask for it are silent about that element; it stays covered by the differential run',
+                                           configurations=res)
+
 # ------------------------------------------------------------------------------------------ the step
 
 def java_model_step(ctx, rep, build=None):
@@ -280,6 +367,12 @@ def java_model_step(ctx, rep, build=None):
             rep['tie_broken'].append('Java model (j2lean) and the real Java method disagree: `%s`: %s' % (l, v))
         log('C19 model tie: %d methods, %d calls, %d mismatches in %d methods, max rel. deviation %.3g, %d exceptions agreed, model stops %s' % (
             len(per), len(lines), len(mism), len(seen), stats.get('max_rel_dev', 0), stats.get('throws', 0), {k: v for k, v in stats.items() if k.startswith('model_stop')}))
+    # the data hypotheses of the theorems, on every configuration of tables this check loads
+    if ok_model:
+        t = time.time()
+        try: hyp_step(ctx, rep, cov, lines)
+        except BuildError as e: rep['problems'].append('data hypotheses could not be executed: ' + str(e)[:300])
+        ctx.tick('hypotheses', t)
     # second data configuration (thorough tier, or C19M_KISSEL=1): synthetic Kissel tables, so that the Kissel / cascade methods return values
     if ok_model and (ctx.tier == 'thorough' or os.environ.get('C19M_KISSEL')):
         t = time.time()
